@@ -49,7 +49,7 @@ func init() {
 }
 
 func c07Generate(c *mon.Ctx) {
-	concBatches(c, c.N(6, 300), func(seed uint64) any { return &c07Case{Conc: seed} })
+	concBatches(c, c.NConc(6, 300), func(seed uint64) any { return &c07Case{Conc: seed} })
 
 	n := oracle.N
 
@@ -160,7 +160,7 @@ func c07Generate(c *mon.Ctx) {
 	})
 
 	// and again at the end of the shard, when the process has a history behind it
-	concBatches(c, c.N(4, 200), func(seed uint64) any { return &c07Case{Conc: seed + 50000} })
+	concBatches(c, c.NConc(4, 200), func(seed uint64) any { return &c07Case{Conc: seed + 50000} })
 }
 
 // error identities observed per rejection cause, to check distinctness / stability across the shard
